@@ -19,6 +19,15 @@ func (v *VC) useBitUF(n string) {
 // the body because declarations are discovered while generating.
 func (v *VC) Preamble() string {
 	var sb strings.Builder
+	// axioms are evaluated first: their terms may introduce string literals and uninterpreted
+	// functions that must be declared above them
+	type axTerm struct{ label, term string }
+	var axTerms []axTerm
+	for _, ax := range v.P.db.Axioms {
+		if t, ok := v.axiomTerm(ax); ok {
+			axTerms = append(axTerms, axTerm{ax.Label, t})
+		}
+	}
 	sb.WriteString("(set-option :produce-models true)\n(set-logic ALL)\n")
 	sb.WriteString("(declare-sort Str 0)\n(declare-fun strlen (Str) Int)\n(declare-const str_empty Str)\n(assert (= (strlen str_empty) 0))\n")
 	sb.WriteString("(assert (forall ((s Str)) (! (and (>= (strlen s) 0) (<= (strlen s) 9223372036854775807) (=> (= (strlen s) 0) (= s str_empty))) :pattern ((strlen s)))))\n")
@@ -169,10 +178,8 @@ func (v *VC) Preamble() string {
 		}
 	}
 	// user axioms whose uninterpreted functions are all in use
-	for _, ax := range v.P.db.Axioms {
-		if t, ok := v.axiomTerm(ax); ok {
-			fmt.Fprintf(&sb, "; axiom %s\n(assert %s)\n", ax.Label, t)
-		}
+	for _, at := range axTerms {
+		fmt.Fprintf(&sb, "; axiom %s\n(assert %s)\n", at.label, at.term)
 	}
 	return sb.String()
 }
